@@ -12,8 +12,9 @@ import numpy as np
 
 from symx import run, loader
 
+PROBE = '--meshprobe' in sys.argv
 REPLAY = run.is_replay()
-if REPLAY:
+if REPLAY or PROBE:
     loader.install_plain()
 else:
     loader.install()
@@ -66,7 +67,7 @@ def mesh(cname, N):
         crys = geom.get_crystal(cname)
         name = 'mesh:%s:%s' % (cname, 'x'.join(map(str, N)))
         obs = []
-        sh = shells(crys)[:10]
+        sh = shells(crys, rmax=2.0 * SCALE.get(cname, 1.0))[:10]
         c = src.reals('c', len(sh), -1, 1)
         info = src.info(replayer='mesh', extra={'crystal': cname, 'N': list(N)})
 
@@ -110,12 +111,109 @@ def mesh_sequence(cname, Ns):
     return fn
 
 
+class _ZoneStub(object):
+    """what Crystal.genBZG / inBZ read of a crystal: dim, lattice, reciplatt (the real methods run on it)"""
+    def __init__(self, dim, lattice, reciplatt):
+        self.dim, self.lattice, self.reciplatt = dim, lattice, reciplatt
+        self.BZG = None
+
+    def inBZ(self, vec, BZG=None, threshold=1e-5):
+        return crystal.Crystal.inBZ(self, vec, BZG, threshold)
+
+
+def voronoi_vectors(reciplatt, dim, nmax=4):
+    """independent oracle: halves of the reciprocal lattice vectors G whose midpoint G/2 is strictly nearer to the origin than to
+    every other reciprocal lattice point (the Voronoi-relevant vectors; unit scale, concrete)"""
+    Gs = [np.dot(reciplatt, np.array(n)) for n in itertools.product(range(-nmax, nmax + 1), repeat=dim) if any(n)]
+    out = []
+    for G in Gs:
+        p = 0.5 * G
+        if all(np.dot(p, H) < 0.5 * np.dot(H, H) - 1e-9 for H in Gs if not np.allclose(H, G)):
+            out.append(p)
+    return out
+
+
+def zone(cname, lo=0.125, hi=64.0):
+    """The LENGTH SCALE of the lattice is a solver real s in [lo, hi] (the sections split [1/8, 64]; lattice = s L0, reciprocal lattice = R0 / s): the real
+    genBZG / inBZ run on it and z3 decides, on every path, that the zone-bounding vectors are exactly the Voronoi-relevant
+    reciprocal vectors of the unit-scale lattice divided by s."""
+    def fn(src=None):
+        src = src or Src()
+        c0 = geom.get_crystal(cname)
+        dim = c0.dim
+        s = src.real('scale', lo, hi)
+        info = src.info(replayer='zone', extra={'crystal': cname, 'lo': lo, 'hi': hi})
+        name = 'zone:%s:%g-%g' % (cname, lo, hi)
+        if src.symbolic:
+            L = (np.array(c0.lattice, dtype=object) * s).view(shim.SymArray)
+            Rm = (np.array(c0.reciplatt, dtype=object) / s).view(shim.SymArray)
+            stub = _ZoneStub(dim, L, Rm)
+        else:
+            stub = _ZoneStub(dim, c0.lattice * s, c0.reciplatt / s)
+        B = crystal.Crystal.genBZG(stub)
+        want = voronoi_vectors(c0.reciplatt, dim)
+        obs = []
+
+        def ob(n, v):
+            obs.append(('%s:%s' % (name, n), v, dict(info, sig='zone:' + n)))
+        ob('zone-vector-count', len(B) == len(want))
+        # every expected vector (scaled) is one of the returned rows, and every returned row is an expected vector: decided
+        # by matching on the unit-scale values (s * row is scale free)
+        rows = [[x * s for x in r] for r in B]
+        conds = []
+        for w in want:
+            conds.append(core.Or(*[harness.close(r, w, 1e-7) for r in rows]) if src.symbolic else
+                         any(np.allclose(np.array(r, dtype=float), w, atol=1e-7) for r in rows))
+        for r in rows:
+            conds.append(core.Or(*[harness.close(r, w, 1e-7) for w in want]) if src.symbolic else
+                         any(np.allclose(np.array(r, dtype=float), w, atol=1e-7) for w in want))
+        ob('zone-vectors-are-the-voronoi-vectors', core.And(*conds) if src.symbolic else all(conds))
+        if src.symbolic:
+            obs.append(('twin:%s' % name, len(B) != len(want) or core.Not(core.And(*conds))))
+        return obs
+    return fn
+
+
+def terminates(cname, N, limit_s=120):
+    """FLOAT behaviour the exact-arithmetic runs cannot see: mesh points lying on a zone face (found as the points with k.G == G.G
+    in exact arithmetic) must not keep the folding loop of the real float code running for ever.  The real fullkptmesh runs in a
+    child process under a time limit (a concrete replay on the plain code, not a solver verdict: stated as such in the evidence)."""
+    def fn(src=None):
+        import os
+        import subprocess
+        src = src or Src()
+        info = src.info(replayer='terminate', extra={'crystal': cname, 'N': list(N)})
+        try:
+            r = subprocess.run([sys.executable, os.path.abspath(__file__), '--meshprobe', cname] + [str(n) for n in N],
+                               timeout=limit_s, stdout=subprocess.PIPE, stderr=subprocess.STDOUT)
+            ok = r.returncode == 0
+        except subprocess.TimeoutExpired:
+            ok = False
+        return [('terminate:%s:%s:mesh-generation-terminates' % (cname, 'x'.join(map(str, N))), ok,
+                 dict(info, sig='terminate:mesh-generation-terminates'))]
+    return fn
+
+
+def _meshprobe():
+    i = sys.argv.index('--meshprobe')
+    cname, N = sys.argv[i + 1], tuple(int(x) for x in sys.argv[i + 2:])
+    crys = geom.get_crystal(cname)
+    k = crys.fullkptmesh(N)
+    sys.exit(0 if len(k) == int(np.prod(N)) else 1)
+
+
+TERM_Q = [('rhomb50', (6, 6, 6)), ('rhomb', (6, 6, 6)), ('hcp', (6, 6, 6)), ('fcc', (8, 8, 8)), ('tria', (6, 6)), ('bct', (4, 4, 4))]
+TERM_T = TERM_Q + [('rhomb50', (4, 4, 4)), ('rhomb50', (8, 8, 8)), ('sheared3', (8, 8, 8)), ('tricl', (6, 6, 6)), ('oblique', (8, 8)), ('hex1', (6, 6, 6))]
+ZONE_Q = ['square', 'tria', 'rect1', 'oblique', 'sc', 'fcc']
+ZONE_T = ZONE_Q + ['hcp', 'bcc', 'bct', 'tricl', 'rhomb', 'hex1', 'ortho1']
+ZONE_RANGES = [(0.125, 1.0), (1.0, 2.5), (2.5, 4.5), (4.5, 12.0), (12.0, 64.0)]
 SEQ3 = [(4, 4, 6), (6, 4, 4), (4, 6, 4), (3, 4, 8)]
 SEQ2 = [(4, 6), (6, 4), (3, 8)]
 MESH3 = [(4, 4, 4), (5, 5, 5), (4, 6, 3), (3, 3, 3)]
 MESH2 = [(6, 6), (5, 4), (3, 3)]
-QUICK = ['sc', 'fcc', 'hcp', 'bcc', 'square', 'tria', 'rect1', 'honeycomb', 'bct', 'tricl', 'rhomb', 'oblique']
-THOROUGH = QUICK + ['hex1', 'rumpled', 'diamond', 'l12', 'ortho1', 'rect2', 'wurtzite', 'afm-bcc']
+SCALE = {'fcc-a4': 4.0, 'hcp-a3': 3.0, 'sc-a5': 5.0, 'tria-a4': 4.0, 'bct-a10': 10.0}
+QUICK = ['sc', 'fcc', 'hcp', 'bcc', 'square', 'tria', 'rect1', 'honeycomb', 'bct', 'tricl', 'rhomb', 'oblique', 'fcc-a4', 'hcp-a3', 'tria-a4', 'sheared3']
+THOROUGH = QUICK + ['sc-a5', 'bct-a10', 'hex1', 'rumpled', 'diamond', 'l12', 'ortho1', 'rect2', 'wurtzite', 'afm-bcc']
 
 
 def sections(tier):
@@ -128,6 +226,13 @@ def sections(tier):
                 continue
             secs.append(S('mesh:%s:%s' % (c, 'x'.join(map(str, N))), mesh(c, N), budget_s=170 if tier == 'quick' else 1200, replayer='mesh',
                           config=c, maxpaths=2, timeout_ms=30000))
+    for c, N in (TERM_Q if tier == 'quick' else TERM_T):
+        secs.append(S('terminate:%s:%s' % (c, 'x'.join(map(str, N))), terminates(c, N), budget_s=170, replayer='terminate', config=c, maxpaths=1,
+                      timeout_ms=30000))
+    for c in (ZONE_Q if tier == 'quick' else ZONE_T):
+        for lo, hi in ZONE_RANGES:
+            secs.append(S('zone:%s:%g-%g' % (c, lo, hi), zone(c, lo, hi), budget_s=170 if tier == 'quick' else 1200, replayer='zone', config=c,
+                          maxpaths=200, timeout_ms=30000))
     for c in (['ortho1', 'hcp', 'tricl', 'rect1', 'oblique'] if tier == 'quick' else ['ortho1', 'hcp', 'tricl', 'rect1', 'oblique', 'sc', 'bct', 'square', 'rect2']):
         dim = geom.get_crystal(c).dim
         Ns = SEQ3 if dim == 3 else SEQ2
@@ -139,8 +244,12 @@ def sections(tier):
 def main():
     import warnings
     warnings.simplefilter('ignore')
+    if PROBE:
+        _meshprobe()
     if REPLAY:
-        run.replay_main('C22', {'mesh': lambda rec: harness.run_laws_concrete(mesh(rec['extra']['crystal'], tuple(rec['extra']['N'])), rec),
+        run.replay_main('C22', {'terminate': lambda rec: harness.run_laws_concrete(terminates(rec['extra']['crystal'], tuple(rec['extra']['N'])), rec),
+                                'zone': lambda rec: harness.run_laws_concrete(zone(rec['extra']['crystal'], rec['extra']['lo'], rec['extra']['hi']), rec),
+                                'mesh': lambda rec: harness.run_laws_concrete(mesh(rec['extra']['crystal'], tuple(rec['extra']['N'])), rec),
                                 'meshseq': lambda rec: harness.run_laws_concrete(mesh_sequence(rec['extra']['crystal'], [tuple(n) for n in rec['extra']['Ns']]), rec)})
     C = crystal.Crystal
     chk = run.Check(
